@@ -749,7 +749,7 @@ func checkC16(w *World, r *Report) {
 			}
 		}
 	}
-	r.floor("C16.type", "nested reads whose error is propagated", np, 12)
+	r.floor("C16.type", "nested reads whose error is propagated", np, 8)
 	// READ / REPL return reader errors unchanged
 	for _, name := range []string{"READ", "REPL", "READWithPreamble"} {
 		fn := w.Fn("", name)
